@@ -1,6 +1,7 @@
 package c09
 
 import (
+	"sort"
 	"bytes"
 	"fmt"
 	"io"
@@ -925,6 +926,182 @@ func registryRace(k int) {
 	run.Case(fw.Hash("registry-race", k%16), succ > 0 && fail > 0)
 }
 
+// admissionRace: the interface's admission beyond its assigned addresses is switched on and
+// off (promiscuous mode, or ownership of 10.0.1.192/26) by one goroutine while two others
+// inject uniquely numbered datagrams for 10.0.1.200, an address that is never assigned; a
+// wildcard socket collects them. Every call is stamped from one logical clock. A datagram
+// whose injection lies wholly inside an interval in which admission was on (switch-on
+// returned before, switch-off called after) must be returned exactly once; one whose
+// injection overlaps no interval in which admission may have been on (switch-on called ..
+// switch-off returned) must not be returned at all; nothing is returned twice. The
+// temporary per-packet address objects are created, shared and dropped concurrently here:
+// race reports in stack/ are violations (anchors of the racing child).
+func admissionRace(k int) {
+	r := fw.NewRand(run.Seed, "C09", "admission-race", k)
+	w := newWorld()
+	ep, err := w.s.NewEndpoint(udp.ProtocolNumber, ipv4.ProtocolNumber, &waiter.Queue{})
+	if err != nil {
+		run.Broken("harness: " + err.String())
+		return
+	}
+	defer ep.Close()
+	const port = 100
+	if e := ep.Bind(tcpip.FullAddress{Port: port}, nil); e != nil {
+		run.Broken("harness: bind: " + e.String())
+		return
+	}
+	var clk int64
+	now := func() int64 { return atomic.AddInt64(&clk, 1) }
+	type span struct{ onCall, onRet, offCall, offRet int64 }
+	var spans []span
+	type inj struct {
+		id        uint32
+		call, ret int64
+	}
+	var mu sync.Mutex
+	var injs []inj
+	usePromisc := r.Bool()
+	sn, _ := tcpip.NewSubnet("\x0a\x00\x01\xc0", tcpip.AddressMask("\xff\xff\xff\xc0"))
+	var wg sync.WaitGroup
+	done := make(chan struct{})
+	wg.Add(1)
+	go func() {
+		defer wg.Done()
+		rt := r.Split("toggle")
+		for i := 0; i < 40; i++ {
+			var sp span
+			sp.onCall = now()
+			if usePromisc {
+				w.s.SetPromiscuousMode(1, true)
+			} else {
+				w.s.AddSubnet(1, ipv4.ProtocolNumber, sn)
+			}
+			sp.onRet = now()
+			for j := 0; j < 1+rt.Intn(30); j++ {
+				runtime.Gosched()
+			}
+			sp.offCall = now()
+			if usePromisc {
+				w.s.SetPromiscuousMode(1, false)
+			} else {
+				w.s.RemoveSubnet(1, sn)
+			}
+			sp.offRet = now()
+			spans = append(spans, sp)
+			for j := 0; j < 1+rt.Intn(30); j++ {
+				runtime.Gosched()
+			}
+		}
+		close(done)
+	}()
+	for g := 0; g < 2; g++ {
+		g := g
+		wg.Add(1)
+		go func() {
+			defer wg.Done()
+			for i := 0; i < 1200; i++ {
+				select {
+				case <-done:
+					return
+				default:
+				}
+				var s4, d4 [4]byte
+				copy(s4[:], r19)
+				copy(d4[:], insub)
+				id := uint32(g)<<24 | uint32(i)
+				u := rfc.UDP{SrcPort: 5000, DstPort: port, Payload: []byte{byte(id >> 24), byte(id >> 16), byte(id >> 8), byte(id), 'a'}}
+				ip := rfc.IPv4{TTL: 64, Proto: rfc.ProtoUDP, ID: uint16(i), Src: s4, Dst: d4, Payload: u.Bytes4(s4, d4, true)}
+				b := ip.Bytes(true)
+				c := now()
+				w.links[1].Inject(ipv4.ProtocolNumber, b, "")
+				rt := now()
+				mu.Lock()
+				injs = append(injs, inj{id, c, rt})
+				mu.Unlock()
+				if i%8 == 0 {
+					runtime.Gosched()
+				}
+			}
+		}()
+	}
+	wg.Wait()
+	got := map[uint32]int{}
+	for {
+		v, _, e := ep.Read(nil)
+		if e != nil {
+			break
+		}
+		if len(v) >= 4 {
+			got[uint32(v[0])<<24|uint32(v[1])<<16|uint32(v[2])<<8|uint32(v[3])]++
+		}
+	}
+	known := map[uint32]bool{}
+	sure, never := 0, 0
+	// a temporary address object lives while some packet that uses it is still being handled,
+	// and a packet that arrives meanwhile shares it whatever the interface's mode is by then:
+	// 'chained' = the injection overlaps (transitively) one that may have been admitted
+	sort.Slice(injs, func(i, j int) bool { return injs[i].call < injs[j].call })
+	maybeOf := func(x inj) bool {
+		for _, sp := range spans {
+			if !(x.ret < sp.onCall || x.call > sp.offRet) {
+				return true
+			}
+		}
+		return false
+	}
+	chained := map[uint32]bool{}
+	var reach int64 = -1 // latest return stamp of the current chain of overlapping injections that contains a possibly admitted one
+	for _, x := range injs {
+		if maybeOf(x) {
+			if x.ret > reach {
+				reach = x.ret
+			}
+		} else if x.call < reach {
+			chained[x.id] = true
+			if x.ret > reach {
+				reach = x.ret
+			}
+		}
+	}
+	for _, x := range injs {
+		known[x.id] = true
+		inside, maybe := false, maybeOf(x)
+		for _, sp := range spans {
+			if sp.onRet < x.call && x.ret < sp.offCall {
+				inside = true
+			}
+		}
+		n := got[x.id]
+		if !maybe && n > 0 && chained[x.id] {
+			run.Violation("C09/admission-race/admitted-through-a-temporary-address-object-another-packet-still-holds", fmt.Sprintf("datagram %#x for 10.0.1.200 was injected (logical time %d..%d) after admission had been switched off, while an earlier packet for that address was still being handled; it was delivered", x.id, x.call, x.ret), k)
+			continue
+		}
+		switch {
+		case n > 1:
+			run.Violation("C09/admission-race/delivered-twice", fmt.Sprintf("datagram %#x for 10.0.1.200 was returned %d times", x.id, n), k)
+		case inside && n == 0:
+			run.Violation("C09/admission-race/admitted-datagram-lost", fmt.Sprintf("datagram %#x for 10.0.1.200 was injected (logical time %d..%d) while the interface was %s, yet the wildcard socket never returned it", x.id, x.call, x.ret, map[bool]string{true: "promiscuous", false: "owner of 10.0.1.192/26"}[usePromisc]), k)
+		case !maybe && n > 0:
+			run.Violation("C09/admission-race/delivered-for-unassigned-address", fmt.Sprintf("datagram %#x for 10.0.1.200 was injected (logical time %d..%d) while the interface was neither promiscuous nor owner of the subnet, yet a socket returned it", x.id, x.call, x.ret), k)
+		}
+		if inside {
+			sure++
+		}
+		if !maybe {
+			never++
+		}
+	}
+	for id := range got {
+		if !known[id] {
+			run.Violation("C09/admission-race/unknown-datagram", fmt.Sprintf("the socket returned datagram %#x that was never injected", id), k)
+		}
+	}
+	run.Case(fw.Hash("admission-race", k%8, usePromisc), sure > 0 && never > 0)
+	run.Count("admission_race_datagrams_injected_while_admitted", int64(sure))
+	run.Count("admission_race_datagrams_injected_while_not_admitted", int64(never))
+	run.Count("admission_race_datagrams_returned", int64(len(got)))
+}
+
 func child(t *testing.T) {
 	if os.Getenv("VERIF_PHASE") == "racing" {
 		for k := 0; k < fw.N(60, 3000) && run.Violations() < 3; k++ {
@@ -932,6 +1109,9 @@ func child(t *testing.T) {
 		}
 		for k := 0; k < fw.N(150, 6000) && run.Violations() < 3; k++ {
 			registryRace(k)
+		}
+		for k := 0; k < fw.N(40, 2000) && run.Violations() < 3; k++ {
+			admissionRace(k)
 		}
 		os.Exit(run.Finish("", nil))
 	}
@@ -972,7 +1152,7 @@ func TestC09(t *testing.T) {
 	if !res.Done {
 		run.ChildCrashed(res, "C09/racing", nil)
 	}
-	code := run.Finish("a real stack with two interfaces (three IPv4 addresses) holds a PRNG-built set of 1-10 sockets over three ports: UDP bound to the wildcard / a specific address / an interface, UDP connected with and without naming the interface, TCP listeners on the wildcard or a specific address; some are closed again and one address may be removed. Then the full cross product (interface x destination address incl. a foreign one x destination port incl. an unused one x three sources x two source ports) is injected as UDP datagrams with unique payloads and, for a third of it, as TCP SYNs. After each UDP packet every socket is read: the payload must be on exactly the socket chosen by an independent reference matcher (interface owns the destination address; per-interface registrations before global ones; 4-tuple > connected > specific local address > port only) or nowhere. A SYN must draw exactly one SYN-ACK when a listener matches, exactly one reset when nothing matches, and nothing when the address is not assigned. Racing phase (real time, pinned toolchain, race detector): two goroutines keep opening, draining and closing UDP sockets bound to two addresses of one port while a third injects uniquely numbered datagrams; a datagram may be returned by at most one socket, only by one bound to its destination address, and never by a socket whose owner had decided to close it before the datagram was injected (logical stamps). distinct = socket-set shapes Later additions: Interfaces made promiscuous or told that they own a subnet (10.0.1.192/26), left on or switched off again after a few admitted datagrams; an address inside and one outside the subnet are among the probed destinations. A listener bound to a specific address whose SYN was admitted on another interface is judged only for 'one SYN-ACK or one reset'. Multicast memberships (joined before/after bind, left, socket closed unbound) with group addresses among the probed destinations; the registration table raced directly (at most one holder of an endpoint id). Every fourth probed datagram arrives in two fragments behind a fragment of another host's datagram with the same identification.",
+	code := run.Finish("a real stack with two interfaces (three IPv4 addresses) holds a PRNG-built set of 1-10 sockets over three ports: UDP bound to the wildcard / a specific address / an interface, UDP connected with and without naming the interface, TCP listeners on the wildcard or a specific address; some are closed again and one address may be removed. Then the full cross product (interface x destination address incl. a foreign one x destination port incl. an unused one x three sources x two source ports) is injected as UDP datagrams with unique payloads and, for a third of it, as TCP SYNs. After each UDP packet every socket is read: the payload must be on exactly the socket chosen by an independent reference matcher (interface owns the destination address; per-interface registrations before global ones; 4-tuple > connected > specific local address > port only) or nowhere. A SYN must draw exactly one SYN-ACK when a listener matches, exactly one reset when nothing matches, and nothing when the address is not assigned. Racing phase (real time, pinned toolchain, race detector): two goroutines keep opening, draining and closing UDP sockets bound to two addresses of one port while a third injects uniquely numbered datagrams; a datagram may be returned by at most one socket, only by one bound to its destination address, and never by a socket whose owner had decided to close it before the datagram was injected (logical stamps). distinct = socket-set shapes Later additions: Admission race (race detector): promiscuous mode / subnet ownership is switched on and off while two goroutines inject datagrams for an unassigned address; delivered exactly once when injected wholly inside an admitted interval, never when outside every possibly-admitted interval. Interfaces made promiscuous or told that they own a subnet (10.0.1.192/26), left on or switched off again after a few admitted datagrams; an address inside and one outside the subnet are among the probed destinations. A listener bound to a specific address whose SYN was admitted on another interface is judged only for 'one SYN-ACK or one reset'. Multicast memberships (joined before/after bind, left, socket closed unbound) with group addresses among the probed destinations; the registration table raced directly (at most one holder of an endpoint id). Every fourth probed datagram arrives in two fragments behind a fragment of another host's datagram with the same identification.",
 		[]string{"reference matcher in h/c09 written from the statement", "a removed address that an open socket is still bound/connected to is reported under its own key"})
 	os.Exit(code)
 }
